@@ -95,7 +95,28 @@ def main():
     def fl(hexlist, shape):
         return np.array([float.fromhex(v) for v in hexlist], dtype=float).reshape(shape)
 
+    def sq(x):
+        """SparseQuaternionMatrix built with THIS import style's utils module."""
+        from scipy import sparse as _sp
+        a = np.array(x, dtype=float)
+        return utils.SparseQuaternionMatrix(_sp.csr_matrix(a[..., 0]), _sp.csr_matrix(a[..., 1]), _sp.csr_matrix(a[..., 2]),
+                                            _sp.csr_matrix(a[..., 3]), a.shape[:2])
+
+    def dense_of(r):
+        if isinstance(r, utils.SparseQuaternionMatrix):
+            return np.stack([r.real.toarray(), r.i.toarray(), r.j.toarray(), r.k.toarray()], axis=-1)
+        return r
+
     OPS = {
+        "ns_sparse": lambda a: solver.NewtonSchulzPseudoinverse(max_iter=6, tol=0.0).compute(sq(a["A"])),
+        "ns_sparse_fast": lambda a: solver.NewtonSchulzPseudoinverse(max_iter=6, tol=0.0, compute_residuals=False).compute(sq(a["A"])),
+        "qgmres_sparse": lambda a: solver.QGMRESSolver(tol=1e-8).solve(sq(a["A"]), qa(a["b"])),
+        "qgmres_sparse_left_lu": lambda a: solver.QGMRESSolver(tol=1e-8, preconditioner="left_lu").solve(qa(a["A"]), qa(a["b"])),
+        "matmat_sparse_dense": lambda a: dense_of(utils.quat_matmat(sq(a["A"]), qa(a["B"]))),
+        "matmat_dense_sparse": lambda a: dense_of(utils.quat_matmat(qa(a["A"]), sq(a["B"]))),
+        "frobenius_sparse": lambda a: utils.quat_frobenius_norm(sq(a["A"])),
+        "hermitian_sparse": lambda a: dense_of(utils.quat_hermitian(sq(a["A"]))),
+        "create_sparse": lambda a: dense_of(data_gen.create_sparse_quat_matrix(a["m"], a["n"], density=0.5)),
         "rank": lambda a: utils.rank(qa(a["A"])),
         "det_dieudonne": lambda a: utils.det(qa(a["A"]), "Dieudonne"),
         "det_moore": lambda a: utils.det(qa(a["A"]), "Moore"),
